@@ -34,6 +34,9 @@ func (r *R) fn(pkgRel, name string) *ssa.Function {
 	if f := p.Func(name); f != nil && len(f.Blocks) > 0 {
 		return f
 	}
+	if f := refFuncLookup(p.Pkg.Path(), "", name); f != nil {
+		return f // renamed since the reference tree
+	}
 	r.missing("func %s.%s", pkgRel, name)
 	return nil
 }
@@ -49,6 +52,12 @@ func (r *R) method(pkgRel, typ, name string) *ssa.Function {
 
 func (r *R) methodOpt(pkgRel, typ, name string) *ssa.Function {
 	p := r.pkg(pkgRel)
+	if f := refFuncLookup(p.Pkg.Path(), typ, name); f != nil {
+		return f // method (or its receiver type) renamed since the reference tree
+	}
+	if n, ok := curRenames.typeOld2New[p.Pkg.Path()+"."+typ]; ok {
+		typ = n[strings.LastIndex(n, ".")+1:]
+	}
 	obj := p.Pkg.Scope().Lookup(typ)
 	if obj == nil {
 		return nil
@@ -82,6 +91,9 @@ func (r *R) methodOpt(pkgRel, typ, name string) *ssa.Function {
 
 func (r *R) namedType(pkgRel, typ string) *types.Named {
 	p := r.pkg(pkgRel)
+	if n, ok := curRenames.typeOld2New[p.Pkg.Path()+"."+typ]; ok {
+		typ = n[strings.LastIndex(n, ".")+1:]
+	}
 	obj := p.Pkg.Scope().Lookup(typ)
 	if obj == nil {
 		r.missing("type %s.%s", pkgRel, typ)
@@ -146,11 +158,16 @@ func fname(f *ssa.Function) string {
 		return "<nil>"
 	}
 	s := f.String()
-	s = strings.ReplaceAll(s, modPath+"/internal/", "")
-	s = strings.ReplaceAll(s, modPath+"/", "")
-	s = strings.ReplaceAll(s, modPath+".", "forwarder.")
-	s = strings.ReplaceAll(s, modPath, "forwarder")
-	return s
+	if len(curRenames.funcAlias) > 0 {
+		root := f
+		for root.Parent() != nil {
+			root = root.Parent()
+		}
+		if old, ok := curRenames.funcAlias[root]; ok {
+			s = old + strings.TrimPrefix(s, root.String())
+		}
+	}
+	return canon(shortenFull(s))
 }
 
 // ---------------------------------------------------------------------------
@@ -617,6 +634,9 @@ func describeShallow(v ssa.Value, d func(ssa.Value) string) string {
 		if ta, ok := x.Tuple.(*ssa.TypeAssert); ok && x.Index == 0 {
 			return d(ta) // the value of a comma-ok assertion prints like the plain assertion
 		}
+		if lk, ok := x.Tuple.(*ssa.Lookup); ok && x.Index == 0 && lk.CommaOk {
+			return d(lk.X) + "[" + d(lk.Index) + "]" // the value of `v, ok := m[k]` prints like m[k]
+		}
 		return d(x.Tuple) + "#" + fmt.Sprint(x.Index)
 	case *ssa.Lookup:
 		return d(x.X) + "[" + d(x.Index) + "]"
@@ -721,6 +741,9 @@ func fieldName(t types.Type, i int) string {
 	st, ok := t.Underlying().(*types.Struct)
 	if !ok || i >= st.NumFields() {
 		return fmt.Sprintf("f%d", i)
+	}
+	if old, ok := curRenames.fieldAlias[st.Field(i)]; ok {
+		return old
 	}
 	return st.Field(i).Name()
 }
@@ -988,7 +1011,7 @@ func returnValues(fn *ssa.Function, i int) []ssa.Value {
 	return out
 }
 
-func typeStr(t types.Type) string { return types.TypeString(t, shortQual) }
+func typeStr(t types.Type) string { return canon(types.TypeString(t, shortQual)) }
 
 func posOf(v any) token.Pos {
 	switch x := v.(type) {
